@@ -31,7 +31,15 @@ func (gs GenesisState) Validate() error {
 				return fmt.Errorf("invalid deposit address %s", d.Creator)
 			}
 
-			if w.Address == d.Creator &&
+			// a withdrawal is stored under the depositor of its deposit; the depositor differs from the
+			// creator when the deposit was made on behalf of someone else (records written before the
+			// depositor field existed carry the creator only)
+			depositor := d.DepositorAddress
+			if depositor == "" {
+				depositor = d.Creator
+			}
+
+			if w.Address == depositor &&
 				w.MarketUID == d.MarketUID &&
 				w.ParticipationIndex == d.ParticipationIndex {
 				found = true
